@@ -115,7 +115,10 @@ def run(ctx):
     fracs = boundary_fractions(rnd, 60 if ctx.tier == "quick" else 600)
     secs = [0, -1, 1, 3771234567, -2082844800, 2 ** 31] + [rnd.randint(-2 ** 33, 2 ** 34) for _ in range(4)]
     for res, R in RES.items():
-        pairs = [(s, f) for s in secs[:3 if ctx.tier == "quick" else 10] for f in fracs]
+        # only times datetime64[res] can represent: beyond that NumPy raises OverflowError (and NumPy 2 crashes the interpreter when
+        # that happens inside a large array operation — observed with 22 260 values at 'ns'); outside the property's quantifier
+        pairs = [(s, f) for s in secs[:3 if ctx.tier == "quick" else 10] for f in fracs
+                 if abs(s * R) < 2 ** 62 and abs((s + EPOCH_UNIX_S) * R) < 2 ** 62]
         mdec = model_dec(model, R, pairs) if model is not None else [None] * len(pairs)
         arr = np.zeros(len(pairs), dtype=[("second_fractions", "<u8"), ("seconds", "<i8")])
         arr["seconds"] = [p[0] for p in pairs]
